@@ -5,14 +5,14 @@ asked to emit / compile (and at which try depth)."""
 UNIT = dict(
   name='compilerd',
   properties=['C04'],
-  prelude_files=['prelude.rs', 'prelude_catch_stub.rs'],
+  prelude_files=['prelude.rs', 'prelude_catch_stub.rs', 'prelude_stmt_stub.rs'],
   items=[
     ('laythe_vm/src/byte_code.rs', ['struct Label', ('impl Label', ['new', 'val']), 'enum CaptureIndex', 'enum SymbolicByteCode']),
     ('laythe_core/src/object/fun.rs', ['enum FunKind']),
     ('laythe_vm/src/compiler/ir/ast.rs', ['enum BinaryOp', 'enum UnaryOp']),
     ('laythe_vm/src/compiler/ir/symbol_table.rs', ['enum SymbolState']),
     ('laythe_vm/src/compiler/mod.rs', ['struct TryAttributes', 'struct LoopAttributes',
-       ("impl<'a, 'src: 'a> Compiler<'a, 'src>", ['child', 'try_depth', 'emit_return', 'return_', 'continue_', 'break_', 'loop_scope', 'try_', 'while_', 'if_', 'binary', 'unary', 'ternary'])]),
+       ("impl<'a, 'src: 'a> Compiler<'a, 'src>", ['child', 'try_depth', 'emit_return', 'return_', 'continue_', 'break_', 'loop_scope', 'try_', 'while_', 'if_', 'binary', 'unary', 'ternary', 'stmt'])]),
   ],
   rewrites=[
     ('R7f', 'struct Label'), ('R7f', 'struct TryAttributes'), ('R7f', 'struct LoopAttributes'),
@@ -39,6 +39,7 @@ UNIT = dict(
     ('R4', 'Compiler::loop_scope', dict(pat='cb: impl FnOnce(&mut Self),', rep='cb: BodyCb,', count=1)),
     ('R4', 'Compiler::loop_scope', dict(pat='self.scope(end_line, table, cb);', rep='self.begin_scope(table);\n    cb.verif_run(self);\n    self.end_scope(end_line);', count=1)),
     ('R17', 'Compiler::try_'),
+    ('R5', 'Compiler::stmt', dict(pat=r"&'a Stmt<'src>", rep='&Stmt', regex=True, count=1)),
     ('R5', 'Compiler::*', dict(pat=r'ast::(BinaryOp|UnaryOp)::', rep=r'\1::', regex=True, optional=True)),
     # while_ / if_ (C01 / C06: jumps and labels): the loop body callback is the BodyCb the real loop_scope runs; the two scopes of if_ are inlined
     ('R4', 'Compiler::while_', dict(pat=r'\|self_\| \{\s*self_\.block\(&while_\.body\);\s*\},', rep='BodyCb { },', regex=True, count=1)),
